@@ -37,6 +37,11 @@ def judge(m, conn, N, qubits, prep_ops, dist_spec, kind=KIND, group=None, check_
         dists = [{dist_spec[1]: 1}] * len(circuits)
     elif dist_spec[0] == "mix":
         dists = [{dist_spec[1]: dist_spec[3], dist_spec[2]: dist_spec[4]}] * len(circuits)
+    elif dist_spec[0] == "mix3":
+        d = {}
+        for b, w in zip(dist_spec[1:4], dist_spec[4:7]):
+            d[b] = d.get(b, 0) + w
+        dists = [d] * len(circuits)
     elif dist_spec[0] == "state":
         for d in delivered:
             outs = tomo.stabilizer_outcomes(M.run(list(prep_ops) + d, N), N)
